@@ -181,8 +181,19 @@ Fixpoint ptd_has_none (t : ptd) : bool :=
        end) ents
   end.
 
-(* convert_type under use_state_dict: Parameters and Buffers are re-wrapped, plain tensors pass *)
+(* Switches for repaired defects (true = the code after the fix: commit; false = the behaviour that was found):
+   D6   __exit__ returned early, without inverting to_module, when the body raised an Exception
+   D132 convert_type re-wrapped every Parameter/Buffer (nn.Parameter(x) / Buffer(x)) under use_state_dict
+   D133 _reverse_to_module re-issued to_module with the recorded swap_dest keyword as well (TypeError) *)
+Definition fixed_D6 : bool := true.
+Definition fixed_D132 : bool := true.
+Definition fixed_D133 : bool := true.
+
+(* convert_type under use_state_dict: a value is re-wrapped only when it does not already have the class of the
+   original (x and y are the same object unless a state-dict hook replaced x, which the model does not have);
+   before the repair of D132 Parameters and Buffers were always re-wrapped, plain tensors pass *)
 Definition usd_wrap (st : tstate) (o : obj) : obj * tstate :=
+  if fixed_D132 then (o, st) else
   match okd o with
   | KParam => fresh_wrap st KParam o
   | KBuffer => fresh_wrap st KBuffer o
@@ -319,8 +330,6 @@ Fixpoint quick_set (sw : ptd) (dest : ptd) {struct sw} : qres :=
   end.
 
 (* ------------------------------------------------------------------ the with-statement protocol *)
-(* repaired behaviour switch: false = the code as it is (D6: __exit__ returns early when the body raised) *)
-Definition fixed_D6 : bool := false.
 
 Record block := mkBlock {
   b_target : Z; b_inplace : option bool; b_usd : bool; b_swap_dest : bool; b_manual : bool; b_params : ptd }.
@@ -344,7 +353,7 @@ Definition cfg_of (b : block) (return_swap : bool) : tmcfg := mkCfg (b_inplace b
 
 (* _reverse_to_module: self = swap, out = params.  AttributeError is re-raised as RuntimeError. *)
 Definition reverse_to_module (b : block) (swap : ptd) (st : tstate) : tstate * outcome :=
-  if b_swap_dest b then (st, ORaise ETypeError)               (* to_module with kwargs and swap_dest=out: repeated keyword *)
+  if b_swap_dest b && negb fixed_D133 then (st, ORaise ETypeError)               (* to_module with kwargs and swap_dest=out: repeated keyword *)
   else
     match to_module (cfg_of b true) swap (b_target b) st with
     | TmErr st' e => (st', ORaise (match e with EAttrError => EOther | _ => e end))
@@ -401,7 +410,7 @@ Fixpoint run_blocks_gen (fixed : bool) (x : excspec) (bs : list block) (lvl : na
       end
   end.
 
-(* the code as it is *)
+(* the code as it is (with the repairs recorded by the switches above) *)
 Definition exit_block := exit_block_gen fixed_D6.
 Definition run_blocks := run_blocks_gen fixed_D6.
 
